@@ -218,3 +218,10 @@ func (s *AtomVisitor) EnterOC_FunctionInvocation(ctx *parser.OC_FunctionInvocati
 func (s *AtomVisitor) ExitOC_FunctionInvocation(ctx *parser.OC_FunctionInvocationContext) {
 	s.Atom = s.ctx.Exit().(*FunctionInvocationVisitor).FunctionInvocation
 }
+
+// EnterOC_ShortestPathPattern rejects shortestPath()/allShortestPaths() used as an expression atom. The model only
+// represents shortest-path patterns as pattern parts; descending here would silently reduce the expression to the
+// last variable of the pattern.
+func (s *AtomVisitor) EnterOC_ShortestPathPattern(ctx *parser.OC_ShortestPathPatternContext) {
+	s.newUnsupportedRuleError(ctx)
+}
